@@ -282,8 +282,69 @@ func runSession(t testing.TB, tr *tracer, o srvOpts, sc sessScenario, salt int) 
 	waitFor(5*time.Second, s.finiSeen)
 }
 
+// runUseBehindClose: a READ (or WRITE) on a handle, sent right behind the CLOSE of that handle while the handler object's
+// Close is still running: the handle is dead from the moment the CLOSE is being served - the request fails and never reaches
+// the object. In terms of Session.tla: openok(h), close(h), use(h).
+func runUseBehindClose(t testing.TB, tr *tracer, o srvOpts, write bool, round int) {
+	o.hopt = "opvlrk"
+	o.quiet = true
+	tr.reset(kv{"kind": "session", "server": o.label(), "end": "eof", "src": "behind-close", "ops": []sessOp{}})
+	s := newSrvSession(t, tr, o)
+	s.v.addFile("/f1", posData(300, 1))
+	s.start()
+	if _, ok := s.call(fInit(3)); !ok {
+		t.Fatalf("no VERSION")
+	}
+	pf := uint32(1)
+	if write {
+		pf = 2
+	}
+	f, _ := s.call(fOpen(101, "/f1", pf, wattrs{}))
+	if f.Typ != tHandle {
+		t.Fatalf("open failed: %+v", f)
+	}
+	ob := s.v.lastObj()
+	ob.tag = 1
+	tr.emit("Op", kv{"op": "openok", "h": 1, "handle": f.Handle, "kind": "get"})
+	key := "close:" + itoa(ob.id)
+	s.gate.hold(key)
+	n0 := s.nResps()
+	before := atomic.LoadInt64(&s.v.calls)
+	s.feed(fClose(102, f.Handle), true)
+	waitFor(2*time.Second, func() bool { return s.gate.isWaiting(key) })
+	if write {
+		s.feed(fWrite(103, f.Handle, 0, []byte("late")), true)
+	} else {
+		s.feed(fRead(103, f.Handle, 0, 16), true)
+	}
+	time.Sleep(20 * time.Millisecond) // the request is with a worker now
+	s.gate.release(key)
+	s.waitResps(n0+2, 10*time.Second)
+	var cr, ur wframe
+	for i := n0; i < s.nResps(); i++ {
+		switch r := s.resp(i); r.ID {
+		case 102:
+			cr = r
+		case 103:
+			ur = r
+		}
+	}
+	tr.emit("Op", kv{"op": "close", "h": 1, "ok": cr.Typ == tStatus && cr.Code == 0, "code": int(cr.Code), "objfail": false, "ctxnow": ctxDoneSoon(ob.ctx)})
+	tr.emit("Op", kv{"op": "use", "h": 1, "ok": respOK(ur), "touched": atomic.LoadInt64(&s.v.calls) != before, "typ": ur.T(), "code": int(ur.Code)})
+	tr.emit("Op", kv{"op": "end", "kind": "eof"})
+	s.c2s.CloseWrite(nil)
+	returned := s.waitServe(15 * time.Second)
+	tr.emit("Op", kv{"op": "returned", "returned": returned})
+	s.v.reportObjects()
+	s.conn.Close()
+	waitFor(5*time.Second, s.finiSeen)
+}
+
 func TestVerif_Session(t *testing.T) {
 	tr := newTracer(t)
+	for round := 0; round < 6; round++ {
+		runUseBehindClose(t, tr, srvOpts{kind: "rs", alloc: round%2 == 1}, round%3 == 2, round)
+	}
 	var scs []sessScenario
 	loadScenarios(t, "VERIF_SCEN", &scs)
 	r := vRand(11)
